@@ -144,8 +144,8 @@ def specs(tier, rng):
         aliases = sorted({a['alias'] for r in G['rules'] for a in r['alts'] if a['alias']})
         cand = rnames + aliases
         names = [n for n in cand if rng.random() < 0.6]
-        tnames = [t for t in ('A', 'B') if rng.random() < 0.5]
-        out.append({'G': G, 'ka': rng.random() < 0.2, 'ph': rng.random() < 0.7, 'inputs': sorted(ins), 'names': names, 'tnames': tnames,
+        tnames = [t for t in ('A', 'B', '_C', 'D') if rng.random() < 0.5]      # _C / D reach the tree only under ! or keep_all_tokens
+        out.append({'G': G, 'ka': rng.random() < 0.3, 'ph': rng.random() < 0.7, 'inputs': sorted(ins), 'names': names, 'tnames': tnames,
                     'style': rng.choice(['plain', 'inline', 'tree', 'tree', 'wrapper'])})
     return out
 
